@@ -403,6 +403,7 @@ pub fn hashers_for(profile: &str) -> Vec<HKind> {
     match profile {
         "churn" | "capacity" => vec![HKind::Ident, HKind::Const, HKind::Mix, HKind::Mod4, HKind::Default],
         "huge" => vec![HKind::Mix, HKind::Ident, HKind::Default],
+        "clone" | "panic" => vec![HKind::Reseed, HKind::Mix, HKind::Const, HKind::Mod4, HKind::Ident, HKind::Default],
         _ => vec![HKind::Mix, HKind::Const, HKind::Mod4, HKind::Ident, HKind::Default],
     }
 }
